@@ -106,14 +106,20 @@ function parse_root_bracket_level_text_spans(select_expression) {
 }
 
 
+function unescape_string_body(body) {
+    // Single pass inverse of js_string_escape_column_name(): \\ \' \" and also \n \r \t
+    return body.replace(/\\(.)/g, function(m, c) { return {'n': '\n', 'r': '\r', 't': '\t'}[c] || c; });
+}
+
+
 function unquote_string(quoted_str) {
     // It's possible to use eval here to unqoute the quoted_column_name, but it would be a little barbaric, let's do it manually instead
     if (!quoted_str || quoted_str.length < 2)
         return null;
     if (quoted_str[0] == "'" && quoted_str[quoted_str.length - 1] == "'") {
-        return quoted_str.substring(1, quoted_str.length - 1).replace(/\\'/g, "'").replace(/\\\\/g, "\\");
+        return unescape_string_body(quoted_str.substring(1, quoted_str.length - 1));
     } else if (quoted_str[0] == '"' && quoted_str[quoted_str.length - 1] == '"') {
-        return quoted_str.substring(1, quoted_str.length - 1).replace(/\\"/g, '"').replace(/\\\\/g, "\\");
+        return unescape_string_body(quoted_str.substring(1, quoted_str.length - 1));
     } else {
         return null;
     }
